@@ -39,6 +39,27 @@ fn chunkbuf(chunks: &str) -> h3v::ChunkBuf {
     h3v::ChunkBuf::new(cs)
 }
 
+/// The chunks of what a decoder left behind, `aa.bbcc` (`-` when nothing is left): where the reader stands after a
+/// successful AND after a failed decode, chunk boundaries included (compared with the model of the bytes-crate provided
+/// methods, Model/ChunkedBuf.v; the specification column only sees the concatenation, and nothing at all after an error).
+fn rest_chunks(buf: &mut h3v::ChunkBuf) -> String {
+    let mut parts: Vec<String> = Vec::new();
+    while buf.has_remaining() {
+        let c = buf.chunk().to_vec();
+        if c.is_empty() {
+            parts.push("EMPTY-CHUNK".into());
+            break;
+        }
+        parts.push(hex(&c));
+        buf.advance(c.len());
+    }
+    if parts.is_empty() {
+        "-".into()
+    } else {
+        parts.join(".")
+    }
+}
+
 fn main() {
     run_lines(|ws| match ws {
         ["vi.enc", x] => {
@@ -75,15 +96,11 @@ fn main() {
             // the same bytes presented as a non-contiguous Buf (chunk boundaries anywhere)
             let cs: Vec<bytes::Bytes> = chunks.split('.').map(|c| bytes::Bytes::from(unhex(c))).collect();
             let mut buf = h3v::ChunkBuf::new(cs);
-            match VarInt::decode(&mut buf) {
-                Ok(x) => {
-                    let rest = buf.copy_to_bytes(buf.remaining());
-                    format!("ok {} {}", x.into_inner(), hex(&rest))
-                }
-                Err(e) => {
-                    let rest = buf.copy_to_bytes(buf.remaining());
-                    format!("err {} {}", e.0, hex(&rest))
-                }
+            let r = VarInt::decode(&mut buf);
+            let rest = rest_chunks(&mut buf);
+            match r {
+                Ok(x) => format!("ok {} {}", x.into_inner(), rest),
+                Err(e) => format!("err {} {}", e.0, rest),
             }
         }
         // the other checked constructors and the wrappers h3 itself calls (proto/coding.rs, proto/varint.rs)
@@ -139,10 +156,10 @@ fn main() {
             } else {
                 h3::proto::varint::BufExt::get_var(&mut buf).map_err(|e| e.0)
             };
-            let rest = buf.copy_to_bytes(buf.remaining());
+            let rest = rest_chunks(&mut buf);
             match r {
-                Ok(x) => format!("ok {} {}", x, hex(&rest)),
-                Err(e) => format!("err {} {}", e, hex(&rest)),
+                Ok(x) => format!("ok {} {}", x, rest),
+                Err(e) => format!("err {} {}", e, rest),
             }
         }
         ["sid", x] => {
@@ -206,10 +223,10 @@ fn main() {
         ["st.dec", chunks] => {
             let mut buf = chunkbuf(chunks);
             let r = <StreamType as Decode>::decode(&mut buf);
-            let rest = buf.copy_to_bytes(buf.remaining());
+            let rest = rest_chunks(&mut buf);
             match r {
-                Ok(t) => format!("ok {} {}", t.value(), hex(&rest)),
-                Err(e) => format!("err {} {}", e.0, hex(&rest)),
+                Ok(t) => format!("ok {} {}", t.value(), rest),
+                Err(e) => format!("err {} {}", e.0, rest),
             }
         }
         ["vi.sess", x] => {
@@ -227,10 +244,10 @@ fn main() {
         ["vi.sessd", chunks] => {
             let mut buf = chunkbuf(chunks);
             let r = <SessionId as Decode>::decode(&mut buf);
-            let rest = buf.copy_to_bytes(buf.remaining());
+            let rest = rest_chunks(&mut buf);
             match r {
-                Ok(s) => format!("ok {} {}", StreamId::from(s).into_inner(), hex(&rest)),
-                Err(e) => format!("err {} {}", e.0, hex(&rest)),
+                Ok(s) => format!("ok {} {}", StreamId::from(s).into_inner(), rest),
+                Err(e) => format!("err {} {}", e.0, rest),
             }
         }
         ["vi.from", w, x] => {
